@@ -1,7 +1,7 @@
 (* C17 -- Distributed coin flips are common and bound by commitments.
    Property theorems only: each is closed by `exact <lemma>` and followed by Print Assumptions. *)
 From Coq Require Import ZArith NArith List Bool Znumtheory Lia.
-From LT Require Import gen_Consts Zbase CodecModel CoinFlipArith CoinFlipModel CoinFlipLemmas.
+From LT Require Import gen_Consts Zbase CodecModel VssModel CoinFlipArith CoinFlipModel CoinFlipLemmas CoinFlipNModel CoinFlipNLemmas.
 Import ListNotations.
 Local Open Scope Z_scope.
 
@@ -89,6 +89,47 @@ Theorem C17_flipN_sum : forall q l, 0 < q -> flipN_sum q l = (fold_right Z.add 0
 Proof. exact flipN_sum_spec. Qed.
 Print Assumptions C17_flipN_sum.
 
+(* ---- n-party Flip over Joint-RVSS (coq/CoinFlipNModel.v) ------------------------------------------------------------------- *)
+(* RVSS::Share: a qualified dealer and (no own complaint, or an answer to it) => the party ends with a share matching the
+   dealer's commitments (the stale-share mutation breaks exactly this; without the answer it fails, see the example below) *)
+Theorem C17_rvss_final_share_matches : forall G t i d, dealer_qualified G t d = true ->
+  my_complaint G i d = false \/ answered i d = true ->
+  exists sh, final_share G i d = Some sh /\ matches G (d_cm d) (i + 1) sh = true.
+Proof. exact final_share_matches. Qed.
+Print Assumptions C17_rvss_final_share_matches.
+
+Theorem C17_rvss_qual_common : forall G t d1 d2, d_cm d1 = d_cm d2 -> d_ncompl d1 = d_ncompl d2 -> d_answers d1 = d_answers d2 ->
+  dealer_qualified G t d1 = dealer_qualified G t d2.
+Proof. exact rvss_qual_common. Qed.
+Print Assumptions C17_rvss_qual_common.
+
+(* ... and under binding that share lies on the dealer's committed polynomial: the premise view_ok of the Flip theorems *)
+Theorem C17_rvss_own_share_committed : forall G t i d mb f, m_cm mb = d_cm d -> committed G t mb f -> 0 <= i ->
+  dealer_qualified G t d = true -> my_complaint G i d = false \/ answered i d = true ->
+  exists sh, final_share G i d = Some sh /\ fst sh mod gq G = poly_eval (gq G) f (i + 1).
+Proof. exact own_share_committed. Qed.
+Print Assumptions C17_rvss_own_share_committed.
+
+(* the coin a party computes from its view = the sum of the committed shares of the members of Qual.
+   committed mb f: the binding property of mb's Pedersen commitments (hypothesis; violating it yields log_g h);
+   view_ok i mb f: party i's own share of mb lies on f (C17_rvss_final_share_matches) and the indices are below q - 1. *)
+Theorem C17_flipN_party_sum : forall G, valid G -> forall t, 0 <= t -> forall i mbs fs c,
+  Forall2 (fun mb f => committed G t mb f /\ view_ok G i mb f) mbs fs ->
+  flipN_party G t i mbs = Some c ->
+  c = (fold_right Z.add 0 (map (fun f => poly_eval (gq G) f 0) fs)) mod gq G.
+Proof. exact flipN_party_sum. Qed.
+Print Assumptions C17_flipN_party_sum.
+
+(* all honest parties output the same value, the sum of the committed shares of Qual modulo q, whatever openings failed and
+   whichever verified shares each of them used for the reconstructions *)
+Theorem C17_flipN_common : forall G, valid G -> forall t, 0 <= t -> forall i i' mbs mbs' fs c c',
+  Forall2 (fun mb f => committed G t mb f /\ view_ok G i mb f) mbs fs ->
+  Forall2 (fun mb f => committed G t mb f /\ view_ok G i' mb f) mbs' fs ->
+  flipN_party G t i mbs = Some c -> flipN_party G t i' mbs' = Some c' ->
+  c = c' /\ c = (fold_right Z.add 0 (map (fun f => poly_eval (gq G) f 0) fs)) mod gq G /\ 0 <= c < gq G.
+Proof. exact flipN_common. Qed.
+Print Assumptions C17_flipN_common.
+
 (* non-vacuity: a concrete valid group (p = 23, q = 11, g = 2, h = 3 = 2^8), a run that yields a coin, and
    two different openings of one commitment *)
 Definition G23 : group := mkGroup 23 11 2 3.
@@ -104,3 +145,11 @@ Proof. exists [([67%N], true); ([52%N], true); ([57%N], true)]. split; vm_comput
 Example C17_nonvacuous_two_openings : opens G23 (powm 2 5 23 * powm 3 1 23 mod 23) 5 1 /\
   opens G23 (powm 2 5 23 * powm 3 1 23 mod 23) 2 0 /\ extract_log 11 5 1 2 0 = Some 8.
 Proof. repeat split; vm_compute; reflexivity. Qed.
+(* the unanswered complaint (finding nparty-unanswered-complaint) on the model: p = 23, q = 11, g = 2, h = 3, t = 1, dealer
+   polynomial f = 4 + 2X, f^ = 1 + X, commitments C_0 = 2^4 3^1, C_1 = 2^2 3^1; party i = 1 (abscissa 2) receives (f(2)+1, f^(2)):
+   it complains, the dealer answers nothing and has one complaint <= t: qualified, and the party keeps a share that does not match *)
+Example C17_rvss_unanswered_complaint_refuted :
+  let d := mkDealer [powm 2 4 23 * powm 3 1 23 mod 23; powm 2 2 23 * powm 3 1 23 mod 23] (Some (9, 3)) 1 [] in
+  dealer_qualified G23 1 d = true /\ my_complaint G23 1 d = true /\ answered 1 d = false /\
+  final_share G23 1 d = Some (9, 3) /\ matches G23 (d_cm d) 2 (9, 3) = false /\ matches G23 (d_cm d) 2 (8, 3) = true.
+Proof. cbv zeta. repeat split; vm_compute; reflexivity. Qed.
